@@ -35,7 +35,7 @@ m = {
     "hooks": {
         "guard": "zipora_verif",
         "enable": "RUSTFLAGS=\"--cfg zipora_verif\" (set in harness/.cargo/config.toml and by bin/build for the ASan flavour); the harness depends on zipora by path=/repo so every check rebuilds from the working tree",
-        "baseline_off_cmd": "cd /repo && cargo test --workspace --no-fail-fast --offline",
+        "baseline_off_cmd": "cd /repo && (cargo nextest run --workspace --no-fail-fast --test-threads 8 --offline || cargo test --workspace --lib --tests --no-fail-fast --offline)",
         "source_commits": hooks_commits,
         "add_only": True,
     },
